@@ -14,6 +14,7 @@ for f in $DEMO/*; do case "$f" in *.log|*/target) ;; *) cp -r "$f" /verif/seeded
 cp /tmp/seed_$ID.diff /verif/seeded/$ID/patch.diff
 cd /verif
 git -C /repo apply /verif/seeded/$ID/patch.diff || { echo "patch does not apply to /repo"; exit 8; }
+export VX_EVIDENCE_DIR=/verif/.work/evidence-scratch
 for P in "$@"; do echo "== check $P"; ./vx check $P --tier quick 2>&1 | grep -E "VIOLATION|KNOWN|HELD|held|exit|undecided|UNDECIDED" | head -8; echo "exit=$?"; done
 git -C /repo checkout -- .
 git -C /repo status --short | head -3
